@@ -24,7 +24,7 @@ ASSUMPTIONS = [
     'param.random_seed is left at its default; times are ints or Fractions (floats are cast with a warning)',
     'the global Dynamic.time_fn Time instance is used (each shard is its own process; state restored per case)',
 ]
-REQUIRED = {'late_time_dependence_reads': 50, 'strict_time_contexts': 5, 'clock_tree_reads': 250, 'reads': 3000, 'revisit_reads': 500, 'inspections': 300, 'contexts': 100, 'pushpops': 100, 'reads_raised': 20,
+REQUIRED = {'none_value_reads': 100, 'late_time_dependence_reads': 50, 'strict_time_contexts': 5, 'clock_tree_reads': 250, 'reads': 3000, 'revisit_reads': 500, 'inspections': 300, 'contexts': 100, 'pushpops': 100, 'reads_raised': 20,
             'sampled_reads': 100, 'sampled_cross_checks': 20,
             'class_level_generator_sets': 50, 'pushpops_through_holder': 50}
 
@@ -262,6 +262,44 @@ def late_time_dependence_case(idx, rng, P, rep, param, ng, T):
     rep.case(('late-time-dependence', kind, how), True)
 
 
+def none_values_case(idx, rng, P, rep, param, ng, T):
+    """A value source that is not itself locked to time (a callable counting its calls) and sometimes produces None: the
+    Dynamic parameter keeps what it produced for the duration of a time step - None included - and inspecting never
+    advances it."""
+    class Readings:
+        def __init__(self, readings):
+            self.readings, self.calls = readings, 0
+
+        def __call__(self):
+            v = self.readings[self.calls % len(self.readings)]
+            self.calls += 1
+            return v
+    pool = [21.5, None, 19.0, None, None, 23.0, 7.25]
+    rng.shuffle(pool)
+    Station = type(f'NV{idx}', (param.Parameterized,), dict(temperature=param.Number(default=0.0, allow_None=True),
+                                                             status=param.Dynamic(default=None)))
+    st = Station()
+    src = {'temperature': Readings(list(pool)), 'status': Readings([None, 'ok', None, 'warn'])}
+    st.temperature, st.status = src['temperature'], src['status']
+    desc = dict(kind='none-values', readings=pool)
+    for _ in range(rng.randint(6, 12)):
+        T(T() + rng.randint(1, 3))
+        for pname in ('temperature', 'status'):
+            first = getattr(st, pname)
+            calls = src[pname].calls
+            for _again in range(rng.randint(1, 3)):
+                rep.count('reads')
+                rep.count('none_value_reads')
+                got = getattr(st, pname) if rng.random() < 0.6 else st.param.inspect_value(pname)
+                if got != first or src[pname].calls != calls:
+                    rep.violation('C19/same-time-read-differs/value-is-None' if first is None else 'C19/same-time-read-differs',
+                                  f'{pname} at time {T()}: first read {first!r}, then {got!r} (the source was called '
+                                  f'{src[pname].calls - calls} more time(s))', case=desc)
+                    rep.case(('none-values',), True)
+                    return
+    rep.case(('none-values',), True)
+
+
 def run_case(idx, rng, P, rep):
     param, ng = _st['param'], _st['ng']
     T = param.Dynamic.time_fn
@@ -276,6 +314,8 @@ def run_case(idx, rng, P, rep):
             strict_time_case(idx, rng, P, rep, param, ng)
         elif rng.random() < 0.04:
             late_time_dependence_case(idx, rng, P, rep, param, ng, T)
+        elif rng.random() < 0.04:
+            none_values_case(idx, rng, P, rep, param, ng, T)
         else:
             _run(idx, rng, P, rep, param, ng, T, use_frac)
     finally:
